@@ -23,21 +23,21 @@ pub const POOL: usize = 3;
 #[repr(align(8))]
 pub struct Obj(pub u64);
 
-pub static OBJS: [Obj; POOL] = [Obj(100), Obj(101), Obj(102)];
+/// Object identities are plain numbers used as addresses: the code under proof only compares and
+/// stores these pointers, it never dereferences a `T::Base` (checked by CBMC's pointer checks: a
+/// dereference of such an address would be a failed obligation).
+pub const ADDR_STEP: usize = 0x1000;
 
 pub fn addr(i: usize) -> usize {
-    &OBJS[i] as *const Obj as usize
+    (i + 1) * ADDR_STEP
 }
 
 pub fn index_of(a: usize) -> Option<usize> {
-    let mut i = 0;
-    while i < POOL {
-        if a == addr(i) {
-            return Some(i);
-        }
-        i += 1;
+    if a >= ADDR_STEP && a % ADDR_STEP == 0 && a / ADDR_STEP <= POOL {
+        Some(a / ADDR_STEP - 1)
+    } else {
+        None
     }
-    None
 }
 
 #[derive(Clone, Copy)]
